@@ -15,7 +15,7 @@ pub type Args = BTreeMap<String, String>;
 pub static LAST_PANIC_AT: std::sync::Mutex<String> = std::sync::Mutex::new(String::new());
 
 /// Argument transport: control characters and backslash travel as \\n \\r \\t \\\\ so that one argument is one line.
-fn esc(v: &str) -> String {
+pub fn esc(v: &str) -> String {
     v.replace('\\', "\\\\").replace('\n', "\\n").replace('\r', "\\r").replace('\t', "\\t")
 }
 
